@@ -1,18 +1,164 @@
 /-
 C09 — program parsing and assembly are consistent.
+
+All statements are about `Model/Asm.lean`, which mirrors vm.ParseOp / ParseProgram /
+PushDataBytes / Disassemble / Assemble, the vmutil builders and the segwit / bcrp recognisers
+statement by statement (Go's uint32 arithmetic explicit, `checked.AddUint32` = the definition
+REGENERATED from math/checked/checked.go, opcode numbers / names / opsByName REGENERATED from
+protocol/vm/ops.go).  Go panics and non-termination are explicit outcomes of the model
+(`PErr.panic`, `PErr.diverge`).
+
+Programs are `List UInt8` of length < 2^32 (a Go slice of ≥ 4 GiB would be truncated by
+`uint32(len(prog))`; such programs are outside the hypotheses).
 -/
 import BytomModel.Model.Asm
+import BytomModel.Lemmas.Asm
 
 namespace BytomModel.Props.C09
-open BytomModel.Asm
+open BytomModel.Asm BytomModel.Lemmas.Asm BytomModel.Gen
 
-/-- the F6 witness: `JUMP 1` (target inside the instruction) -/
-def f6Witness : Bytes := [0x63, 0x01, 0x00, 0x00, 0x00]
+/-! ## Parsing tiles the program -/
+
+/-- **parse_tiles.** If ParseProgram succeeds, the program is exactly the concatenation of
+    the instructions' encodings: instruction `k` occupies `Len ≥ 1` bytes starting where
+    instruction `k-1` ended, its first byte is its opcode and its `Data` is the rest of its
+    bytes after the opcode's header (for OP_1..OP_16: the number, one byte long instruction);
+    in particular the lengths sum to the program length. -/
+theorem parse_tiles (p : Bytes) (is : List Inst) (hp : p.length < 4294967296)
+    (h : parseProgram p = .ok is) :
+    Tiling is p ∧ (is.map (·.len)).sum = p.length ∧ ∀ i ∈ is, 1 ≤ i.len := by
+  have hlen : p.length ≤ maxInt32 := by
+    by_cases hl : p.length ≤ maxInt32
+    · exact hl
+    · rw [parseProgram_long p (by omega) hp] at h; cases h
+  rw [parseProgram_eq p hlen] at h
+  have ht := specProg_tiles _ _ _ _ h
+  refine ⟨ht, ht.length_sum, ?_⟩
+  clear h hlen hp
+  induction ht with
+  | nil => intro i hi; cases hi
+  | cons he _ ih =>
+    intro i hi
+    cases hi with
+    | head => exact he.pos
+    | tail _ hm => exact ih i hm
+
+example : parseProgram [0x00, 0x02, 0xaa, 0xbb, 0x51, 0x4c, 0x01, 0xcc] =
+    .ok [⟨0x00, 1, []⟩, ⟨0x02, 3, [0xaa, 0xbb]⟩, ⟨0x51, 1, [0x01]⟩, ⟨0x4c, 3, [0xcc]⟩] := by decide
+
+/-- **parse_total.** ParseProgram never panics and always terminates: the result is one of
+    the three error values or a tiling instruction list.  (Every uint32 addition on the way
+    is the guarded `checked.AddUint32`, or is bounded by a preceding guard.) -/
+theorem parse_total (p : Bytes) (hp : p.length < 4294967296) :
+    parseProgram p = .error .long ∨ parseProgram p = .error .short ∨ parseProgram p = .error .overflow ∨
+    ∃ is, parseProgram p = .ok is ∧ Tiling is p := by
+  by_cases hl : p.length ≤ maxInt32
+  · cases h : parseProgram p with
+    | ok is => exact Or.inr (Or.inr (Or.inr ⟨is, rfl, (parse_tiles p is hp h).1⟩))
+    | error e =>
+      have h' := h
+      rw [parseProgram_eq p hl] at h'
+      have := specProg_total _ _ _ _ (Nat.lt_succ_self _) h'
+      cases e with
+      | long => exact Or.inl rfl
+      | short => exact Or.inr (Or.inl rfl)
+      | overflow => exact Or.inr (Or.inr (Or.inl rfl))
+      | panic => exact absurd rfl this.1
+      | diverge => exact absurd rfl this.2
+  · exact Or.inl (parseProgram_long p (by omega) hp)
+
+/-- programs longer than MaxInt32 bytes are rejected with ErrLongProgram -/
+theorem parse_rejects_long (p : Bytes) (h1 : maxInt32 < p.length) (h2 : p.length < 4294967296) :
+    parseProgram p = .error .long := parseProgram_long p h1 h2
+
+/-- the three error values do occur -/
+example : parseProgram [0x4c] = .error .short := by decide
+example : parseProgram [0x4e, 0xfb, 0xff, 0xff, 0xff] = .error .overflow := by decide
+example : parseProgram [0x00, 0x4e, 0xfa, 0xff, 0xff, 0xff] = .error .overflow := by decide
+example : parseProgram [0x4e, 0xfa, 0xff, 0xff, 0xff] = .error .short := by decide
+
+/-- a single call of ParseOp (any program counter) never panics either -/
+theorem parseOp_total (p : Bytes) (pc : Nat) (hp : p.length ≤ maxInt32) (e : PErr)
+    (h : parseOp p pc = .error e) : e ≠ .panic ∧ e ≠ .diverge := by
+  by_cases hpc : pc < p.length
+  · have hsplit : p = p.take pc ++ p.drop pc := (List.take_append_drop pc p).symm
+    have hl : (p.take pc).length = pc := by rw [List.length_take]; omega
+    have hne : p.drop pc ≠ [] := by
+      intro h0; have := congrArg List.length h0; rw [List.length_drop] at this; simp at this; omega
+    have := parseOp_eq (p.take pc) (p.drop pc) (by rw [← hsplit]; exact hp) hne
+    rw [← hsplit, hl] at this
+    rw [this] at h
+    exact specOp_total h
+  · unfold parseOp at h
+    have hu : u32 p.length = p.length := u32_id (by unfold maxInt32 at hp; omega)
+    have c1 : ¬ (p.length > maxInt32) := by omega
+    have c2 : pc ≥ p.length := by omega
+    simp only [hu, c1, c2, if_false, if_true] at h
+    injection h with h; subst h; simp
+
+/-! ## PushDataBytes output parses back to the data -/
+
+/-- **pushData_parses.** For every data string (up to the int32 program bound) the output of
+    PushDataBytes parses to exactly one instruction, carrying exactly the data, spanning the
+    whole output; its opcode is the one of the length class. -/
+theorem pushData_parses (d : Bytes) (hd : d.length + 5 ≤ maxInt32) :
+    parseProgram (pushDataBytes d) = .ok [⟨pushOp d.length, (pushDataBytes d).length, d⟩] := by
+  have hlen := pushDataBytes_length d
+  have hh := (pushHdr_bounds d.length).2
+  rw [parseProgram_eq _ (by rw [hlen]; omega)]
+  have hs := specOp_pushData 0 d [] (by unfold maxInt32 at hd; omega)
+  rw [List.append_nil] at hs
+  have := @specProg_single ((pushDataBytes d).length - 1) 0 _ _ hs (by simp [hlen])
+  have e : (pushDataBytes d).length - 1 + 2 = (pushDataBytes d).length + 1 := by
+    have := (pushHdr_bounds d.length).1
+    omega
+  rw [e] at this
+  rw [this, hlen]
+
+/-- the five length classes, spelled out -/
+theorem pushData_class_0 : pushDataBytes [] = [0x00] ∧ parseProgram (pushDataBytes []) = .ok [⟨0x00, 1, []⟩] := by
+  decide
+theorem pushData_class_1_75 (d : Bytes) (h : 1 ≤ d.length ∧ d.length ≤ 75) :
+    parseProgram (pushDataBytes d) = .ok [⟨byte d.length, d.length + 1, d⟩] := by
+  rw [pushData_parses d (by unfold maxInt32; omega), pushDataBytes_length]
+  have h0 : ¬ d.length = 0 := by omega
+  simp [pushOp, pushHdr, h.2, h0]
+theorem pushData_class_76_255 (d : Bytes) (h : 76 ≤ d.length ∧ d.length ≤ 255) :
+    parseProgram (pushDataBytes d) = .ok [⟨0x4c, d.length + 2, d⟩] := by
+  rw [pushData_parses d (by unfold maxInt32; omega), pushDataBytes_length]
+  have h0 : ¬ d.length = 0 := by omega
+  have h1 : ¬ d.length ≤ 75 := by omega
+  have h2 : d.length < 256 := by omega
+  simp [pushOp, pushHdr, h0, h1, h2, Ops.OP_PUSHDATA1, byte]
+theorem pushData_class_256_65535 (d : Bytes) (h : 256 ≤ d.length ∧ d.length ≤ 65535) :
+    parseProgram (pushDataBytes d) = .ok [⟨0x4d, d.length + 3, d⟩] := by
+  rw [pushData_parses d (by unfold maxInt32; omega), pushDataBytes_length]
+  have h0 : ¬ d.length = 0 := by omega
+  have h1 : ¬ d.length ≤ 75 := by omega
+  have h2 : ¬ d.length < 256 := by omega
+  have h3 : d.length < 65536 := by omega
+  simp [pushOp, pushHdr, h0, h1, h2, h3, Ops.OP_PUSHDATA2, byte]
+theorem pushData_class_65536_up (d : Bytes) (h : 65536 ≤ d.length ∧ d.length + 5 ≤ maxInt32) :
+    parseProgram (pushDataBytes d) = .ok [⟨0x4e, d.length + 5, d⟩] := by
+  rw [pushData_parses d h.2, pushDataBytes_length]
+  have h0 : ¬ d.length = 0 := by omega
+  have h1 : ¬ d.length ≤ 75 := by omega
+  have h2 : ¬ d.length < 256 := by omega
+  have h3 : ¬ d.length < 65536 := by omega
+  simp [pushOp, pushHdr, h0, h1, h2, h3, Ops.OP_PUSHDATA4, byte]
+
+example : parseProgram (pushDataBytes (List.replicate 76 0xab)) = .ok [⟨0x4c, 78, List.replicate 76 0xab⟩] :=
+  pushData_class_76_255 _ (by decide)
+
+/-! ## The assemble–disassemble round trip -/
 
 def asmDis (p : Bytes) : Option (Except AErr Bytes) :=
   match disassemble p with
   | .ok t => some (assemble t)
   | .error _ => none
+
+/-- the F6 witness: `JUMP 1` (target inside the instruction) -/
+def f6Witness : Bytes := [0x63, 0x01, 0x00, 0x00, 0x00]
 
 theorem f6_witness_fails : asmDis f6Witness = some (.error .undef) := by decide
 
